@@ -2,6 +2,7 @@ package main
 
 import (
 	"go/token"
+	"go/types"
 	"strings"
 
 	"golang.org/x/tools/go/ssa"
@@ -27,6 +28,16 @@ func init() {
 	})
 }
 
+// ownsTables: the struct type declares one of the bookkeeping tables.
+func ownsTables(a *An, n *types.Named) bool {
+	for _, t := range a.Ro.Tables {
+		if a.Ro.StructOf[t] == n {
+			return true
+		}
+	}
+	return false
+}
+
 func endsWithSep(c *Ctx, v ssa.Value) bool {
 	rv, rc := c.resolve(v)
 	if b, ok := rv.(*ssa.BinOp); ok && b.Op == token.ADD {
@@ -47,6 +58,18 @@ func c19Prefix(a *An) {
 	// (1) prefix tests
 	n := 0
 	for _, fn := range a.P.srcFuncs(a.P.Main) {
+		// only code of the backend and of its bookkeeping type handles watch paths
+		top := fn
+		for top.Parent() != nil {
+			top = top.Parent()
+		}
+		if top.Signature.Recv() == nil {
+			continue
+		}
+		rt, _ := deref(top.Signature.Recv().Type()).(*types.Named)
+		if rt == nil || (rt != a.Ro.Backend && !ownsTables(a, rt)) {
+			continue
+		}
 		c := a.E.rootCtx(fn)
 		for _, b := range fn.Blocks {
 			for _, in := range b.Instrs {
